@@ -311,6 +311,22 @@ def spelling_probes(mon: Monitor, rng: random.Random, n: int) -> None:
         mon.obs["same_crs_two_spellings_pairs"] += 1
 
 
+def tiny_rotation_probes(mon: Monitor) -> None:
+    """Long rasters whose grids differ by a few hundredths of a degree of rotation: far below any "is it rotated" tolerance of 1e-3 on the matrix terms, yet two thousand
+    pixels along the raster the rows have drifted apart by more than a pixel - the plan must follow that drift."""
+    from affine import Affine
+    from odc.geo.geobox import GeoBox
+    from odc.geo.overlap import compute_reproject_roi
+
+    for ang, (sh, dh), n, ty in [(0.04, (200, 140), 2000, 120), (-0.04, (200, 140), 2000, -60), (0.025, (120, 130), 2300, 60), (0.05, (150, 100), 1700, -40), (0.04, (200, 140), 2000, 0)]:
+        src = GeoBox((sh, n), Affine(10.0, 0, 300_000.0, 0, -10.0, 6_000_000.0), "EPSG:32633")
+        for P in (Affine.translation(0, ty) * Affine.rotation(ang), Affine.translation(3, ty) * Affine.rotation(ang) * Affine.scale(2)):
+            dst = GeoBox((dh, n if P.a < 1.5 else n // 2), src.affine * P, "EPSG:32633")
+            for a, b in ((src, dst), (dst, src)):
+                call(compute_reproject_roi, a, b)
+                mon.obs["tiny_rotation_probes"] += 1
+
+
 def drive_oneoff(mon: Monitor, rng: random.Random, n: int) -> None:
     """A loader's life: a stream of rasters, each in its own made-up local projection (per-tile transverse Mercator / LAEA), planned into a lon/lat grid and back, the
     CRS objects dropped afterwards.  Whatever the library caches along the way (parsed CRSs, transformers keyed by object identity), plan number 300 is judged like plan
@@ -346,6 +362,7 @@ def run(mon: Monitor, tier: str, seed: int, shard: int, nshards: int) -> None:
             curvature_probes(mon)
             reverse_curvature_probes(mon)
             antimeridian_edge_probes(mon)
+            tiny_rotation_probes(mon)
         drive(mon, rng, 3500 if q else 60000, 500 if q else 8000)
         drive_oneoff(mon, random.Random(seed * 1000 + shard + 103), 300 if q else 1200)
         spelling_probes(mon, random.Random(seed * 1000 + shard + 104), 200 if q else 3000)
